@@ -7,6 +7,36 @@ HOOK_COMMITS = ["3ae8aca", "0edfce9"]
 
 # id -> (category, technique, text, note, design_ref)
 CHECKS = {
+ "C01": ("exploration",
+         "bounded exhaustive enumeration (E1) of parameter sets x secret distributions x messages x seeds, oracle = exact phase recomputed from ciphertext limbs and a clear copy of the secret",
+         "GLWE secret-key, public-key (with key generation), seed-compressed (+decompress) and LWE secret-key encryption are run for N in {8,16}, ranks 0..3, radices 1..6, 12, 17 and the backend maximum, every precision k up to 4 limbs incl. every residue k mod base2k, six secret distributions, an 8-class message alphabet with extreme digits and 8 seed triples on four backends; the harness recomputes the phase exactly (big integers) and requires every coefficient of phase - message to be within the worst case implied by the truncation bound; the library's decryption into up to nine (radix, size) plaintexts must equal the rounded phase. Because the Gaussian is truncated this is a hard invariant, not a statistic.",
+         "Trusted: the phase oracle (pvc-common/phase.rs), replication of GLWESecret coefficients through the public ScalarZnx::fill_* (validated at start-up, machinery error otherwise). Cross-radix plaintexts for secret-key encryption must be rejected or placed correctly.",
+         "3/C01"),
+ "C06": ("exploration",
+         "bounded exhaustive enumeration (E1) over 24 encrypting routines x all 16 (plaintext, secret, mask seed, error seed) combinations, conformance to a sampler model, aggregate variance band over the enumerated seed family",
+         "For every encrypting routine reachable through the public API (GLWE, LWE, GGLWE, GGSW, switching / automorphism / tensor / GGLWE-to-GGSW / public keys, compressed forms, blind-rotation and circuit-bootstrapping keys) all pairs of runs differing in plaintext, secret, mask seed or error seed are compared cell by cell: determinism, mask independent of plaintext and secret, error seed changes only the body, mask seed changes the mask; the extracted error is a non-zero integer at the declared limb within the bound and, for GLWE/LWE forms, equal coefficient for coefficient to a sampler model run on the same seeds. The variance band test is an aggregate over the enumerated executions (labelled as such), deterministic for the default seed.",
+         "Trusted: the sampler model (ChaCha stream + rounded truncated normal as documented). 'Matches sigma' is distributional: what is decided exhaustively is conformance and non-interference on the enumerated family.",
+         "3/C06"),
+ "C13": ("model_checking",
+         "symbolic state exploration with hash-consed ROBDDs (E5) of the compiled decision diagrams, explicit enumeration of small supports, and replay of concrete inputs through the real evaluator",
+         "Each of the 11 compiled u32 circuits (290 output bits, 7678 CMux nodes) is checked structurally (indices in range, no read of an undefined slot, last level shape, declared state width) and evaluated level by level into canonical ROBDDs over 64 variables; node identity with the ROBDD of the bit-blasted RISC-V word operation is equality on all 2^64 input pairs (states = ROBDD nodes, transitions = ite steps). The engine is cross-validated by enumerating every assignment of each support of <= 20 (quick) / 26 (thorough) variables against Rust's u32 operators, by flipping hi/lo in every one of the 7678 nodes of an in-memory copy (all detected), and bound to the implementation by running the real execute_bdd_circuit / word operations on boundary input pairs and comparing decrypted bits with interpreter and operator.",
+         "Trusted: the ROBDD package and interpreter in pvc-model/bdd.rs (cross-validated as above), the read-only accessor hook. Not an SMT/SAT verdict.",
+         "3/C13"),
+ "C14": ("exploration",
+         "bounded exhaustive enumeration (E1): every rotation index of every table shape (clear path), every message of Z_{2^p} and every mask value at every position (blind path), against the definition on Z[X]/(X^(N*ext)+1) and a modulus-switch model",
+         "Clear path: for N in {8,16,32}, extension factors 1..8, every table length dividing the domain, scales 1..6, three radices, lookup_table_set is compared with the definition at every coefficient and every rotation k in [0, 2D) in both directions limb-exactly with the ring model (5.3M calls per backend thorough). Blind path on four backends: N_glwe in {32,64}, 13 (n_lwe, block, distribution) shapes, extension 1/2/4, both directions, several key seeds and LWE radices, every message for p=1..5, plus crafted noiseless samples driving every mask value through the accumulator; the modulus switch is recomputed from the definition, every result coefficient must equal the rotated table within a derived worst-case bound. Four defects found this way were repaired.",
+         "Trusted: ring model, phase oracle, the read-only LookupTable accessor hook. f(m) on the constant coefficient is only demanded where the error budget is below half a step.",
+         "3/C14"),
+ "C18": ("fault_enumeration",
+         "exhaustive fault enumeration (E4): every truncation point and every header field x boundary dictionary of every serialisable type, on fresh receivers, plus round trips into receivers of all relative capacities",
+         "All 30 ReaderFrom/WriterTo types (found by a run-time source scan; a type without a driver is a machinery error) are serialised over small parameter grids; round trips into same / larger / smaller receivers; every prefix length of every stream; header fields located by tracing the real deserialiser's read requests, by differential writes and by treating every aligned word as a field, each replaced by 14+ dictionary values (0, 1, v+-1, 2^31, 2^32-1, 2^61, 2^63, 2^64-1, smallest overflowing products ...). After Ok or Err the receiver must be consistent with its buffer, Err must leave metadata unchanged, nothing may panic (overflow checks on) or request absurd allocations. Four defect classes repaired, one recorded.",
+         "Trusted: public accessors as the view of receiver state (some composite keys expose only part of it and are judged through re-serialisation). Single allocations above 64 MiB are refused by a capped allocator and count as a violation.",
+         "3/C18"),
+ "C19": ("exploration",
+         "bounded exhaustive enumeration (E1) of compressed layouts x shapes x seeds on four backends, oracle = mask regenerated from the stored seed + error of the standard encryption + byte comparison across backends",
+         "Eight compressed routines (GLWE, GGLWE, GGSW, switching, automorphism, tensor, GGLWE-to-GGSW keys, LWE) are encrypted, decompressed and compared cell by cell: mask equal to the model regenerated from the seed stored for that cell, error equal to the standard encryption's under the same error stream, bodies normalised, single-cell GLWE byte-identical to glwe_encrypt_sk, stored seeds distinct, write_to -> read_from -> decompress identical, compressed bytes and expanded cells identical across the four backends. Two defects repaired (GGLWE-to-GGSW compressed key lost its seeds; decompress_lwe only accepted dimension 1).",
+         "Trusted: phase oracle and sampler model. Three compressed LWE-related key types are not reachable through the public API (missing trait impls) and are reported as not covered.",
+         "3/C19"),
  "C17": ("exploration",
          "bounded exhaustive enumeration (E1/E2 drivers of C07-C12) executed under a memory monitor (AddressSanitizer build + canaries)",
          "The shape enumerations of C09 (coefficient operations from N=1, ring switching, big accumulators), C12 (every scratch-taking operation with an exact-size window), the set_size histories of C11 and the large-N DFT classes are executed on four backends in a harness built with -Zsanitizer=address: every operand, result and scratch window is a separate heap allocation with red-zones, so any out-of-bounds access aborts; the abort is attributed to the in-flight cases by a signal handler and reported as a violation with a replay file; canaries catch overruns inside one allocation. Detected (and now repaired): the AVX ring-switch kernel writing past the output for N<4.",
